@@ -949,7 +949,11 @@ class Connection (EventMixin):
         log.exception("%s: Exception while handling OpenFlow message:\n" +
                       "%s %s", self,self,
                       ("\n" + str(self) + " ").join(str(msg).split('\n')))
-        continue
+
+      if self.disconnected:
+        # A handler has disconnected us; whatever else was read with this
+        # message is not meant for a dead connection
+        return False
 
     if offset != 0:
       self.buf = self.buf[offset:]
